@@ -34,7 +34,13 @@ RULE = ('one bucket per name exported by algopy.nthderiv (enumerated at run time
         'point(s)) with points drawn from the declared domain (.domain attribute) minus a margin around the '
         'singularities, special points (0, +-1/2, +-1, integers, half-integers) boosted; n in 0..10 (quick) / 0..16 '
         '(thorough) up to the per-function caps listed under n_caps; every element is compared with mpmath.diff '
-        '(piecewise functions: with the rule); non-trivial = n >= 2; distinct by descriptor hash')
+        '(piecewise functions: with the rule); both ends of the admissible set are boosted and negative arguments are drawn '
+        'wherever the declared domain has them (histogram classes dom:<f>:x<0 / lowest-tenth / highest-tenth); extra '
+        'parameters: polygamma m in 0..12, 15, 20; hyperu a positive, negative non-integer and negative integer, b positive, '
+        'integer and negative; clip bounds negative/positive/straddling 0/degenerate (a_min == a_max), ints and floats; in '
+        'half of the cases of a function with a sibling (erf/erfi, sin/cos, log/log2/log10, ...) the sibling is evaluated at '
+        'the same (x, n) before or after it and checked as well (shared state between functions); non-trivial = n >= 2; '
+        'distinct by descriptor hash')
 ASSUMPTIONS = [
     'mpmath.diff at 45 digits (working precision (45 digits + 20 bits)*(n+1)) is the reference for the n-th derivative; '
     'mpmath, NumPy and SciPy are trusted',
@@ -51,6 +57,12 @@ ASSUMPTIONS = [
     'arguments are float64 (python float, numpy.float64, ndarray); integer dtypes are outside the domain '
     '(numpy refuses negative integer powers of integer arrays)',
     'np_filled_like is a utility without derivative semantics: compared with numpy.full',
+    'hyperu: x in [0.1, 5] (scipy.special.hyperu loses accuracy for x >= 8: up to 3e-7 relative at n = 0, an upstream '
+    'limitation outside this range restriction); for negative integer a (polynomial case) and for 1+a-b a non-positive '
+    'integer the reference function is the finite sum DLMF 13.2.7 (mpmath cannot certify the exact zeros of U), still '
+    'differentiated numerically; points where scipy.special.hyperu(a+n, b+n, x) itself is non-finite are steered around '
+    'while KF-nthderiv-hyperu-integer-b-nan is open',
+    'clip: a_min > a_max is inadmissible and not generated; bounds None are not generated',
 ]
 
 # ---------------------------------------------------------------------------
